@@ -37,11 +37,38 @@
                                     or TensorExpansion (4 inner ((position name))) over a stack / chain
                                     term (tags 3 / 4 of Run/RunC02.v; the decoder accepts any view term)
       result: (2) constructor panicked | (0 (shape ((v) | () …)))
+   (10 10 . c09-case)               wave 4: EVERY public iterator constructor of the crate in the case
+                                    language of Run/RunC09.v (ops 1, 2, 3, 5, 6, 7: every iterator type,
+                                    `from`, `from_numeric`, the Matrix / MatrixView / Tensor / TensorView
+                                    convenience methods, with_index(); the model is run_c09, i.e.
+                                    Model/IterG.v / MatrixIter.v / ShapeIter.v), generated over EMPTY and
+                                    degenerate sources (0xN / Nx0 / 0x0 MatrixRange, 0x0 partition parts
+                                    and quadrants, 1x1, single row / column, one-element tensors, ranges
+                                    / masks whose constructor fails) and walked to exhaustion + 3 calls
+   (10 11 variables rows cols data leaf (wrapper…) (r0 rl c0 cl))
+                                    the record-container constructors built on the owning iterators:
+                                    RecordMatrix::constants (variables = 0) / ::variables (1, fresh
+                                    WengertList) over a C12 view stack (leaf / wrappers of Run/RunC12.v)
+                                    over Matrix::from_flat_row_major((rows, cols), data); then
+                                    RecordMatrix::from_existing over MatrixRange::from(record, (r0, rl),
+                                    (c0, cl)), both walked by every iterator of the record API
+      result: (2) partition panicked | (1 shape) tensor wrapper refused | (0 (2)) the constructor
+              panicked (an EMPTY view: Matrix::from_flat_row_major rejects it before anything is read)
+              | (0 (0 (rows cols ((v i)…)) (rows' cols' ((v i)…))))  the record's elements row-major
+              with their WengertList indexes (0 for constants, 0.. for variables), then the
+              from_existing view's (empty: no element)
+   (10 12 variables src (range…))   RecordTensor::constants / ::variables over a tensor source term
+                                    (Model/TSource.v, as (9 2 ..)), then RecordTensor::from_existing over
+                                    TensorRange::from(record, ranges) (range = (start length) per
+                                    dimension; a range that leaves nothing is refused by the constructor)
+      result: outcome of the source term, then (shape ((v i)…) R) with R = (1) range refused |
+              (0 (shape' ((v i)…)))
    All other C10 workloads are the other properties' cases replayed with the hooks on. *)
 From Coq Require Import List ZArith NArith Bool Arith.
 From EasyML Require Import Base.Sx Model.PanicSafety Model.Shape Model.Tensor Model.TSource
   Model.TensorOps.
 From EasyML Require Model.Views Run.RunC02 Run.RunC11.
+From EasyML Require Model.ShapeIter Model.MatrixViews Model.MatrixAccess Model.IterG Run.RunC12 Run.RunC09.
 Import ListNotations.
 
 Definition iotaZ (n : nat) : list Z := map Z.of_nat (seq 0 n).
@@ -95,9 +122,93 @@ Definition c10_walk (v : Views.view) : sx :=
   soutcome (fun c => SL [sshape (Views.c_shape c); slist (sopt RunC02.svalue) (RunC02.view_values c)])
            (Views.v_ctor v).
 
+(* ---- (10 11 ..) / (10 12 ..): record containers built on the owning iterators ---- *)
+(* the elements a row-major walk to exhaustion hands out (Model/IterG.v: the generic iterator over a
+   C12 view stack through its unchecked getters) *)
+Definition walk_values {St} (o : IterG.msource St Z) (s : St) : list Z :=
+  let it := IterG.gmi_from o true s in
+  let n := N.to_nat (IterG.mo_rows o s * IterG.mo_cols o s) in
+  flat_map (fun st : option ((N * N) * option Z) * N =>
+              match fst st with Some (_, Some v) => [v] | _ => [] end)
+           (fst (ShapeIter.drive (IterG.gmi_next o) IterG.gmi_len n it)).
+
+Definition with_indexes (variables : bool) (vs : list Z) : list (Z * N) :=
+  combine vs (map (fun i => if variables then N.of_nat i else 0%N) (seq 0 (length vs))).
+Definition srecs (l : list (Z * N)) : sx := slist (fun p => SL [SZ (fst p); sN (snd p)]) l.
+
+Definition c10_record_matrix (variables : bool) (v : MatrixViews.mview) (data : list Z)
+           (r0 rl c0 cl : N) : sx :=
+  let o := IterG.mview_source (T := Z) v in
+  let rows := IterG.mo_rows o data in
+  let cols := IterG.mo_cols o data in
+  if (rows * cols =? 0)%N then SL [SZ 2%Z]
+  else
+    let recs := with_indexes variables (walk_values o data) in
+    let keys := seq 0 (length recs) in
+    (* the record owns a fresh rows x cols matrix; from_existing views it through a MatrixRange *)
+    let v' := MatrixViews.range_from (MatrixViews.VMatrix rows cols) (MatrixViews.mkIR r0 rl) (MatrixViews.mkIR c0 cl) in
+    let o' := IterG.mview_source (T := Z) v' in
+    let picked := walk_values o' (map Z.of_nat keys) in
+    let recs' := flat_map (fun k => match nth_error recs (Z.to_nat k) with Some r => [r] | None => [] end) picked in
+    SL [SZ 0%Z; SL [sN rows; sN cols; srecs recs];
+        SL [sN (IterG.mo_rows o' data); sN (IterG.mo_cols o' data); srecs recs']].
+
+Definition tensor_walk_values (s : tsrc Z) : list Z :=
+  let it := ShapeIter.tensor_iter_from s in
+  flat_map (fun st : option (list N * option Z) * N =>
+              match fst st with Some (_, Some v) => [v] | _ => [] end)
+           (fst (ShapeIter.drive ShapeIter.ti_next ShapeIter.ti_len (N.to_nat (ShapeIter.ti_len it)) it)).
+
+Definition c10_record_tensor (variables : bool) (s : tsrc Z) (ranges : list (N * N)) : sx :=
+  let recs := with_indexes variables (tensor_walk_values s) in
+  let sh := src_shape s in
+  let keys := map Z.of_nat (seq 0 (length recs)) in
+  let inner :=
+    match tensor_from sh keys with
+    | Ok t =>
+        match trange_from_all (TBase t) ranges with
+        | Ok s' =>
+            let picked := tensor_walk_values s' in
+            SL [SZ 0%Z; SL [sshape (src_shape s');
+                            srecs (flat_map (fun k => match nth_error recs (Z.to_nat k) with
+                                                      | Some r => [r] | None => [] end) picked)]]
+        | _ => SL [SZ 1%Z]
+        end
+    | _ => SL [SZ 1%Z]
+    end in
+  SL [sshape sh; srecs recs; inner].
+
 Definition run_c10 (args : list sx) : sx :=
   match args with
   | SZ 8%Z :: rest => RunC11.run_c11 rest
+  | SZ 10%Z :: rest => RunC09.run_c09 rest
+  | [SZ 11%Z; variables; rows; cols; data; leaf; ws; SL [r0; rl; c0; cl]] =>
+      match dbool variables, dN rows, dN cols, dlist dZ data, dlist RunC12.dwrapper ws with
+      | Some variables, Some rows, Some cols, Some data, Some ws =>
+          match dN r0, dN rl, dN c0, dN cl with
+          | Some r0, Some rl, Some c0, Some cl =>
+              if RunC12.root_ok rows cols data then
+                match RunC12.dleaf rows cols leaf with
+                | Some lf =>
+                    match obind lf (fun v => RunC12.apply_wrappers v ws) with
+                    | Ok v => SL [SZ 0%Z; c10_record_matrix variables v data r0 rl c0 cl]
+                    | Err e => SL [SZ 1%Z; e]
+                    | Panic => SL [SZ 2%Z]
+                    end
+                | None => bad_case
+                end
+              else bad_case
+          | _, _, _, _ => bad_case
+          end
+      | _, _, _, _, _ => bad_case
+      end
+  | [SZ 12%Z; variables; src; ranges] =>
+      match dbool variables, dsrc 8 src, dlist (dpair dN dN) ranges with
+      | Some variables, Some src, Some ranges =>
+          soutcome (fun s => if Nat.eqb (length ranges) (length (src_shape s))
+                             then c10_record_tensor variables s ranges else bad_case) src
+      | _, _, _ => bad_case
+      end
   | [SZ 9%Z; t] =>
       match RunC02.dview 40 t with
       | Some v => if RunC02.nodup_b (RunC02.v_leaf_ids v) then c10_walk v else bad_case
